@@ -210,6 +210,91 @@ func genOutCase(r *simrt.Rand, tier string, prop string) *OutCase {
 	return c
 }
 
+// sweepOut enumerates the fault-point sweep of the outbound properties: small plans (2 operations
+// in the quick tier, 3 in the thorough tier, from an alphabet of Write / Writev / Sendfile shapes
+// sized relative to the kernel's send capacity) x epoll mode x transport x kernel capacity (64 bytes:
+// a backlog forms by itself; 4096: everything fits and the scripted fault is the only disturbance)
+// x peer (reads at once / stalls until the writers are done) x first operation inside the open
+// callback or not; each plan runs once undisturbed and then once per (k, take): the k-th write that
+// would have fitted is cut short to `take` bytes (1, half, all but one) - exactly one fault per run,
+// at every position, under a calm schedule (no pre-emption at plain yields). Enumeration, not sampling:
+// a change that needs one short write at one particular point of one of these plans is met for certain.
+func sweepOut(prop, tier string) []interface{} {
+	var out []interface{}
+	const C = 64
+	alpha := []WOp{
+		{Op: "w", Sizes: []int{C / 2}},
+		{Op: "w", Sizes: []int{3 * C}},
+		{Op: "v", Sizes: []int{C / 2, 0, C}},
+		{Op: "v", Sizes: []int{2 * C, C / 2}},
+		{Op: "f", Sizes: []int{0, 2 * C}},
+	}
+	nops, maxAt, takes := 2, 5, []int{1, 1 << 30}
+	if tier == "thorough" {
+		nops, maxAt, takes = 3, 9, []int{1, 0, 1 << 30}
+	}
+	var plans [][]WOp
+	var rec func(prefix []WOp)
+	rec = func(prefix []WOp) {
+		if len(prefix) == nops {
+			plans = append(plans, append([]WOp(nil), prefix...))
+			return
+		}
+		for _, a := range alpha {
+			rec(append(prefix, a))
+		}
+	}
+	rec(nil)
+	idx := 0
+	for _, mode := range []string{"LT", "ET", "ONESHOT"} {
+		for _, network := range []string{"tcp", "unix"} {
+			for _, capv := range []int{C, 4096} {
+				for _, stall := range []bool{false, true} {
+					if stall && capv != C {
+						continue // nothing queues up behind a large buffer: a stalling peer changes nothing
+					}
+					for _, inOpen := range []bool{false, true} {
+						if inOpen && tier != "thorough" && capv != C {
+							continue
+						}
+						for _, plan := range plans {
+							for at := 0; at <= maxAt; at++ {
+								for ti, take := range takes {
+									if at == 0 && ti > 0 {
+										continue
+									}
+									idx++
+									c := &OutCase{ReadChunk: 4096, StallUntilDone: stall}
+									c.Sched = common.Sched{Seed: uint64(idx), Strategy: int(simrt.StratRandom), Stick: 1, MaxSteps: 150000}
+									c.Eng = EngCfg{Mode: mode, NPoller: 1, ReadBuf: 4096, Network: network}
+									if prop == "C17" {
+										c.Eng.MaxWBuf = 4 * C
+									}
+									c.K = kernel.DefaultParams()
+									c.K.SndCap = capv
+									c.K.ShortAt = at
+									c.K.ShortTake = take
+									var ops []WOp
+									for i, o := range plan {
+										o.Sizes = append([]int(nil), o.Sizes...)
+										if i == 0 && inOpen {
+											o.Ctx = "open"
+										}
+										ops = append(ops, o)
+									}
+									c.Writers = [][]WOp{ops}
+									out = append(out, c)
+								}
+							}
+						}
+					}
+				}
+			}
+		}
+	}
+	return out
+}
+
 func shrinkOut(ci interface{}) []interface{} {
 	c := ci.(*OutCase)
 	var out []interface{}
